@@ -19,12 +19,14 @@ Proved here, for ALL inputs satisfying the stated hypotheses:
   sort_point_pairs_chain                                          whatever is returned is a valid chain
   sort_point_pairs_cycle_complete / _chain_complete               simple cycles / simple open chains are never rejected
   sort_points_on_line_perm / _monotone                            permutation; monotone in the line parameter
+  sort_point_plane_xy_perm / _sorted, ang_sorted_clockwise        planes z = const: permutation, ordered by the exact
+                                                                  arctan2 comparison = clockwise about the centre
 
 Not proved (correspondence + exact rational oracle only): that a SIMPLE polygon has signed crossing
 number in {-1, 0, 1} (needed for point_in_polygon when the vertical line meets >= 4 edges) and the
 non-generic positions (vertex exactly above/below the point); point_in_cell; point_in_polyhedron /
-PointInPolyhedron (solid angles: arctan2); half_space_interior_point (LP); sort_point_plane (rotation
-by an irrational matrix + arctan2); sort_triangle_edges; sort_multiple_point_pairs; the rotation
+PointInPolyhedron (solid angles: arctan2); half_space_interior_point (LP); sort_point_plane in planes other than z = const
+(rotation by an irrational matrix before arctan2); sort_triangle_edges; sort_multiple_point_pairs; the rotation
 inside sort_points_on_line (modelled as the dot product with the tangent it aligns with e_z).
 -/
 import PorepyVerif.C31.Lemmas
@@ -667,6 +669,62 @@ theorem sort_points_on_line_monotone (o d : P3) (ts : List Rat) (tol : Rat) (out
 
 example : sortPointsOnLine ([0, 3, 1, -2].map (fun t => add3 (1, 2, 3) (scale3 t (1, 1, -1)))) (1 / 100000)
     = .ok [3, 0, 2, 1] := by decide +kernel
+
+
+
+/-! ### sort_point_plane (planes z = const) -/
+
+/-- The result is a permutation of the point indices. -/
+theorem sort_point_plane_xy_perm (pts : List P2) (c : P2) :
+    (sortPointPlaneXY pts c).Perm (List.range pts.length) := by
+  unfold sortPointPlaneXY
+  have := (sortByAngle_perm (enumFrom' 0 (pts.map (fun p => sub2 p c)))).map (·.1)
+  rw [map_fst_enumFrom', ← List.range_eq_range', List.length_map] at this
+  exact this
+
+/-- The result is ordered by `arctan2(x - c.x, y - c.y)` (decided exactly by `angLt`): no later
+    point has a strictly smaller angle than an earlier one. -/
+theorem sort_point_plane_xy_sorted (pts : List P2) (c : P2) :
+    ((sortPointPlaneXY pts c).map (fun i => sub2 (pts.getD i (0, 0)) c)).Pairwise
+      (fun a b => angLt b a = false) := by
+  unfold sortPointPlaneXY
+  set l := pts.map (fun p => sub2 p c) with hl
+  have hmem : ∀ x ∈ sortByAngle (enumFrom' 0 l), sub2 (pts.getD x.1 (0, 0)) c = x.2 := by
+    intro x hx
+    have hx' := (sortByAngle_perm _).mem_iff.mp hx
+    have := (mem_enumFrom' 0 l x.1 x.2).mp hx'
+    simp only [Nat.sub_zero, hl, List.getElem?_map] at this
+    cases hg : pts[x.1]? with
+    | none => simp [hg] at this
+    | some q =>
+      simp only [hg, Option.map_some, Option.some.injEq] at this
+      simp [List.getD, hg, this.2]
+  rw [List.map_map, List.pairwise_map]
+  refine List.Pairwise.imp_of_mem ?_ (sortByAngle_sorted (enumFrom' 0 l))
+  intro a b ha hb hab
+  simp only [Function.comp]
+  rw [hmem a ha, hmem b hb]
+  exact hab
+
+/-- Meaning of the order inside an open half plane: a later point is reached from an earlier one by
+    a clockwise turn about the centre (`arctan2(x, y)` grows clockwise). -/
+theorem ang_sorted_clockwise (a b : P2) (h : angLt b a = false)
+    (hside : (0 < a.1 ∧ 0 < b.1) ∨ (a.1 < 0 ∧ b.1 < 0)) : cross2 a b ≤ 0 := by
+  have hn : ¬ (angLt b a = true) := by simp [h]
+  rw [angLt_iff] at hn
+  simp only [not_or, not_and, not_lt] at hn
+  have hreg : angRegion a = angRegion b ∧ (angRegion b = 0 ∨ angRegion b = 2) := by
+    rcases hside with ⟨ha, hb⟩ | ⟨ha, hb⟩
+    · have h1 : ¬ a.1 < 0 := by linarith
+      have h2 : ¬ b.1 < 0 := by linarith
+      simp [angRegion, ha, hb, h1, h2]
+    · simp [angRegion, ha, hb]
+  have := hn.2 hreg.1.symm hreg.2
+  rw [cross2_antisymm] at this
+  linarith
+
+example : sortPointPlaneXY [(1, 0), (0, 1), (-1, -1), (0, -2), (2, 2)] (0, 0) = [2, 1, 4, 0, 3] := by
+  decide +kernel
 
 
 end PorepyVerif.C31
